@@ -270,6 +270,9 @@ func (x *Exec) valuesEqual(a, b Value) *Term {
 			}
 			return x.valuesEqual(va.val, vb.val)
 		case *AbsObj:
+			if va.dyn == nil && vb.fam && vb.nilT != nil {
+				return vb.nilT
+			}
 			return tFalse
 		case *Opaque:
 			if va.dyn == nil {
@@ -279,8 +282,18 @@ func (x *Exec) valuesEqual(a, b Value) *Term {
 	case *AbsObj:
 		switch vb := b.(type) {
 		case *AbsObj:
+			if va.fam && vb.fam && va.name == vb.name && len(va.idx) == len(vb.idx) {
+				var eqs []*Term
+				for i := range va.idx {
+					eqs = append(eqs, mkEq(va.idx[i], vb.idx[i]))
+				}
+				return mkAnd(eqs...)
+			}
 			return mkBool(va == vb)
 		case *Iface:
+			if vb.dyn == nil && va.fam && va.nilT != nil {
+				return va.nilT // comparison with nil
+			}
 			return tFalse // abstract shapes are non-nil and distinct from concrete ones
 		}
 	case *Opaque:
